@@ -28,7 +28,7 @@ Variable rank : schema -> nat.
 Variable R : nat.
 Hypothesis G : guarded defs W rank R.
 (* every schema of W that is not a reference (the siblings of $ref are ignored by both sides) is of the clean class *)
-Hypothesis Hclean : forall s, W s -> s_ref s = None -> local_clean0 fin allow_null OR s.
+Hypothesis Hclean : forall s, W s -> s_ref s = None -> local_clean0 fin OR s.
 (* the one condition that depends on the value - where a format sits next to a non-numeric type list, the value is one the
    list accepts (the type.go:200 shortcut) - holds along the validation: F is closed under the visits both sides make *)
 Variable F : schema -> goval -> Prop.
@@ -149,17 +149,27 @@ Hypothesis Hord : forall a b, finP fin_b a -> finP fin_b b -> n_lt N a b = negb 
 Hypothesis Heq_sym : forall a b, finP fin_b a -> finP fin_b b -> n_eq N a b = n_eq N b a.
 
 Definition lc_b (s : schema) : bool :=
-  match s_ref s with Some _ => true | None => local_clean0_b fin_b allow_null OR s end.
+  match s_ref s with Some _ => true | None => local_clean0_b fin_b OR s end.
 
 Definition fmt_fits_b (s : schema) (d : goval) : bool :=
-  Z.eqb (s_format s) 0 || (contains k_number (s_types s) || contains k_integer (s_types s)) ||
-  (negb (match s_types s with [] => true | _ => false end) &&
-   (match d with VStr _ => contains k_string (s_types s) | _ => true end) &&
-   (match d with VArr _ _ => contains k_array (s_types s) | _ => true end)).
+  (match d with
+   | VNil => is_nil_b (s_all_of s) && is_nil_b (s_any_of s) && is_nil_b (s_one_of s) && is_none (s_not s)
+   | _ => true
+   end) &&
+  (Z.eqb (s_format s) 0 || (contains k_number (s_types s) || contains k_integer (s_types s)) ||
+   (negb (match s_types s with [] => true | _ => false end) &&
+    (match d with VStr _ => contains k_string (s_types s) | _ => true end) &&
+    (match d with VArr _ _ => contains k_array (s_types s) | _ => true end))).
 
 Lemma fmt_fits_b_sound s d : fmt_fits_b s d = true -> fmt_fits s d.
 Proof.
-  unfold fmt_fits_b, fmt_fits. intros H. apply orb_true_iff in H. destruct H as [H | H].
+  unfold fmt_fits_b, fmt_fits. intros H. apply andb_true_iff in H. destruct H as [HN H]. split.
+  2: { intros E. subst d. unfold nullsafe. apply andb_true_iff in HN. destruct HN as [HN Hc]. apply andb_true_iff in HN. destruct HN as [HN Ho].
+       apply andb_true_iff in HN. destruct HN as [Ha Hb].
+       split; [revert Ha; destruct (s_all_of s); [reflexivity | discriminate]|].
+       split; [revert Hb; destruct (s_any_of s); [reflexivity | discriminate]|].
+       split; [revert Ho; destruct (s_one_of s); [reflexivity | discriminate] | revert Hc; destruct (s_not s); [discriminate | reflexivity]]. }
+  apply orb_true_iff in H. destruct H as [H | H].
   - apply orb_true_iff in H. destruct H as [H | H]; [left; apply Z.eqb_eq; exact H | right; left; exact H].
   - destruct (contains k_number (s_types s) || contains k_integer (s_types s)) eqn:En; [right; left; reflexivity|].
     right. right. apply andb_true_iff in H. destruct H as [H H3]. apply andb_true_iff in H. destruct H as [H1 H2].
